@@ -8,6 +8,7 @@
 //
 // usage: h_sync --prim mutex|mutex0|recmutex|spin|ticket|qspin --execs N --seed S --vcpus V --threads K --ops M --out f
 #include "vt_photon.h"
+#include <chrono>
 #include <photon/thread/thread.h>
 #include <memory>
 #include <cstring>
@@ -826,6 +827,81 @@ static bool exec_shutdown(const std::string& prim, int ex, vt::Rng& r) {
     return true;
 }
 
+
+// ------------------------------------------------------------------------------------------------ expiry under a storm of cross-vCPU wake-ups (C04)
+// Y sleeps for a finite time on vCPU A; X sleeps forever on the same vCPU and is interrupted from a plain OS thread whenever it
+// is found asleep, so that (nearly) every scheduling round of A has a thread arriving through the stand-by queue.  "Every
+// sleeping thread with a finite deadline runs again no later than the first scheduling round after its deadline, whatever other
+// threads ... are interrupted from other vCPUs in the meantime": X counts the rounds in which it ran with the runtime clock
+// already past Y's deadline while Y had not run yet.  Rounds are counted, not time, so machine load does not matter.
+static bool exec_starve(const std::string& prim, int ex, vt::Rng& r) {
+    if (g_vc.vc.size() < 2) return true;
+    int64_t us = 2000 + (int64_t)r.below(4) * 2000;
+    vt::Ev("Reset").s("prim", prim).i("ex", ex).i("n", 3).i("vcpus", 2);
+    vtp::Worker X, Y, D; X.id = 1; Y.id = 2; D.id = 3;
+    std::atomic<uint64_t> ydl{0}; std::atomic<bool> ydone{false}, stop{false}, go{false}; std::atomic<int> late{0}, xrounds{0}, rounds{0};
+    std::atomic<int64_t> ydt{0}; std::atomic<int> yret{0};
+    X.body = [&] { while (!stop.load()) { thread_usleep(-1); xrounds++; } };
+    Y.body = [&] {
+        uint64_t t0 = photon::__update_now();
+        ydl = t0 + (uint64_t)us;
+        int ret = thread_usleep((uint64_t)us);
+        ydone = true;
+        yret = ret; ydt = (int64_t)(photon::__update_now() - t0);
+    };
+    // the driver keeps the vCPU (spinning, no scheduling point) until X has been interrupted from outside, and only then hands
+    // the vCPU on: the idler -- the place where expired sleepers are resumed -- gets its turn only with X in the stand-by queue
+    // G only yields; it sleeps once first, so that it is re-inserted right before the idler, i.e. between D and the idler: X
+    // (inserted right before the idler when resumed) is then never D's direct successor, thread_yield_to(X) places X before D,
+    // and the vCPU comes back to D -- not to the idler -- when X sleeps again
+    vtp::Worker G; G.id = 4; std::atomic<bool> gready{false};
+    G.body = [&] { thread_usleep(300); gready = true; while (!stop.load()) thread_yield(); };
+    D.body = [&] {
+        auto t0 = std::chrono::steady_clock::now();
+        auto in_standbyq = [&] { return thread_stat(X.th) == states::STANDBY && get_info(INFO_STANDBY_THREAD_NUM, nullptr) > 0; };
+        while (!gready.load() || thread_stat(X.th) != states::SLEEPING) thread_yield();
+        go = true;                                   // the storm may start; Y starts its sleep in the first round
+        while (!ydone.load() && late.load() < 50 && std::chrono::steady_clock::now() - t0 < std::chrono::seconds(4)) {
+            auto st = thread_stat(X.th);
+            if (st == states::READY) { thread_yield_to(X.th); continue; }          // resumed by the idler: let it sleep again
+            if (st == states::SLEEPING || !in_standbyq()) {
+                auto s0 = std::chrono::steady_clock::now(); bool late_b = false;
+                while (!in_standbyq() && thread_stat(X.th) != states::READY) if (std::chrono::steady_clock::now() - s0 > std::chrono::seconds(2)) { late_b = true; break; }
+                if (late_b) break;
+                continue;
+            }
+            // X sits in the stand-by queue: hand the vCPU on, the idler gets one round
+            uint64_t dl = ydl.load();
+            if (dl && !ydone.load() && photon::__update_now() > dl) late++;     // a round handed over after Y's deadline
+            rounds++;
+            thread_yield();
+        }
+        stop = true;
+    };
+    { vtp::GateGuard gg; vtp::spawn_on(&X, g_vc.vc[1]); vtp::spawn_on(&G, g_vc.vc[1]); vtp::spawn_on(&D, g_vc.vc[1]); }
+    while (!go.load()) thread_usleep(200);
+    { vtp::GateGuard gg; vtp::spawn_on(&Y, g_vc.vc[1]); }
+    std::thread storm([&] {
+        while (!stop.load())
+            if (thread_stat(X.th) == states::SLEEPING) thread_interrupt(X.th, EINTR);
+    });
+    uint64_t waited = 0;
+    while (!stop.load() && waited < 20 * 1000 * 1000) { thread_usleep(500); waited += 500; }
+    stop = true;
+    storm.join();
+    // the storm is over: Y wakes at the latest now
+    waited = 0;
+    while (!ydone.load() && waited < 10 * 1000 * 1000) { thread_usleep(500); waited += 500; }
+    vt::Ev("Starve").i("us", us).i("late", late.load()).i("rounds", rounds.load()).i("xrounds", xrounds.load())
+        .i("r", yret.load()).i("dt", ydt.load()).b("done", ydone.load());
+    for (int i = 0; i < 20000 && !X.done.load(); i++) { if (thread_stat(X.th) == states::SLEEPING) thread_interrupt(X.th, EINTR); thread_usleep(200); }
+    std::vector<vtp::Worker*> ws{&X, &Y, &D, &G};
+    if (!vtp::wait_done(ws, 10 * 1000 * 1000, prim.c_str())) return false;
+    vtp::join_all(ws);
+    vt::Ev("Quiesce").raw("sleeping", "[]");
+    return true;
+}
+
 // ------------------------------------------------------------------------------------------------ conductor (scripted sequences)
 // All workers live on ONE vCPU, where photon threads switch only at blocking points.  The conductor (main thread) executes a
 // script step by step: it tells one worker to perform one operation (or a compound of two back-to-back operations), lets the
@@ -1130,6 +1206,7 @@ int main(int argc, char** argv) {
         else if (prim[0] == 'c' && prim != "cv" && prim != "cvspin") ok = exec_conduct(prim, ex, r, scripts.empty() ? nullptr : &scripts[ex % scripts.size()]);
         else if (prim == "sleep") ok = exec_sleep(prim, ex, r);
         else if (prim == "shutdown") ok = exec_shutdown(prim, ex, r);
+        else if (prim == "starve") ok = exec_starve(prim, ex, r);
         else ok = os_clients ? exec_lock_os(prim, ex, r) : exec_lock_photon(prim, ex, r);
         if (!ok) { rc = 4; break; }
     }
